@@ -96,10 +96,13 @@ def c05(tier):
 
 def c18(tier):
     build("vh", "vh-debug")
-    r = Result("C18", "exploration", "reconcile.rs compiled unchanged; the complete quotient (7^3 = 343 triples of {absent} + 3 digest classes x 2 entry types) against a table written from the statement, mirror symmetry, no delete without base; all 3^9 assignments of {absent,x,y} to 3 paths x both trust settings; random 32-byte digests under injective renaming; distinct non-trivial = triples whose decision is not Noop")
+    r = Result("C18", "exploration", "reconcile.rs compiled unchanged; the complete quotient (7^3 = 343 triples of {absent} + 3 digest classes x 2 entry types) against a table written from the statement, mirror symmetry, no delete without base; all 3^9 assignments of {absent,x,y} to 3 paths x both trust settings; random 32-byte digests under injective renaming; CLI cross-check: `bisync --dry-run` plan lines on materialised 3-path states (archive written by a preceding real run, or none) equal the table; distinct non-trivial = triples whose decision is not Noop")
     th = tier == "thorough"
     r.merge_vh(run_vh("c18", tier, cases=400000 if th else 40000), "release:")
     r.merge_vh(run_vh("c18", tier, profile="debug", cases=20000, sd=dseed()), "debug:")
+    # the same table through the binary: `bisync --dry-run` on materialised states with an archive written by copia
+    import bisync
+    bisync.c18_cli_crosscheck(r, 3000 if th else 300)
     r.exhaustive = True
     r.assumptions = ASSUME_LIB + ["exhaustive refers to the finite quotient and the 3-path map space; the random-digest part is sampled"]
     finish(r, tier)
